@@ -292,6 +292,9 @@ class TGen:
             else:
                 self.newcol += 1
                 col, k = "c%d" % self.newcol, rng.choice(["f", "i"])
+                sc = sorted(x for x in m.scalars if x not in m.cols)
+                if sc and rng.random() < 0.3:
+                    col = rng.choice(sc)          # an entry that was a scalar so far becomes a column
                 vals = [rng.choice(FLOATS) if k == "f" else rng.randint(0, 5) for _ in range(n)]
             fk = rng.randint(0, max(0, n - 1)) if (self.cfg.get("faults") and rng.random() < 0.25) else None
             return ("setcol", tid, col, k, tuple(vals), rng.choice(["item", "attr"]), fk)
@@ -362,6 +365,7 @@ class TGen:
                     return
                 if col not in m.cols:
                     m.cols.append(col)
+                    m.scalars.pop(col, None)
                     self.kinds[tid][col] = k
                 m.data[col] = list(vals)
             elif kind == "delcol":
